@@ -3,6 +3,8 @@ package main
 import (
 	"go/types"
 	"strings"
+
+	"golang.org/x/tools/go/ssa"
 )
 
 // checkGuard enforces the lock discipline declared by //verif:guard directives: every load/store of a guarded
@@ -11,6 +13,9 @@ func (c *Ctx) checkGuard(p PtrV, write bool) {
 	gs := c.shared.guards
 	if len(gs) == 0 || p.obj == nil || p.obj.t == nil || c.extra["guardsOff"] != nil {
 		return
+	}
+	if c.cur == nil || c.isHarnessFn(c.cur.fn) {
+		return // harness code builds and inspects state outside any lock by design
 	}
 	t := p.obj.t
 	for k := 0; k <= len(p.path); k++ {
@@ -107,4 +112,23 @@ func (c *Ctx) checkGuardAt(p PtrV, k int, n *types.Named, g guardSpec, write boo
 		c.solver.EndCheck()
 	}
 	c.reportViolation("guard", label, "unguarded "+mode+" of "+g.structName+"."+g.field+c.where(), vec, "")
+}
+
+// isHarnessFn reports whether fn is defined in a harness file (zz_verif_*.go).
+func (c *Ctx) isHarnessFn(fn *ssa.Function) bool {
+	if v, ok := c.shared.harnessFns.Load(fn); ok {
+		return v.(bool)
+	}
+	f := fn
+	for f.Parent() != nil {
+		f = f.Parent()
+	}
+	res := false
+	if f.Pos().IsValid() {
+		res = strings.Contains(c.shared.prog.Fset.Position(f.Pos()).Filename, "zz_verif_")
+	} else if o := f.Origin(); o != nil && o.Pos().IsValid() {
+		res = strings.Contains(c.shared.prog.Fset.Position(o.Pos()).Filename, "zz_verif_")
+	}
+	c.shared.harnessFns.Store(fn, res)
+	return res
 }
